@@ -162,7 +162,13 @@ func (u *Unit) sortOf(t types.Type) Sort {
 			if pp == "time" && obj.Name() == "Duration" {
 				return SInt
 			}
+			if pp == "net/http" && obj.Name() == "Client" {
+				return Sort(u.structInfo(tt).Name)
+			}
 			if isOpaquePkg(pp) {
+				if _, isSig := tt.Underlying().(*types.Signature); isSig {
+					return SFn
+				}
 				if _, isIface := tt.Underlying().(*types.Interface); isIface {
 					return SVal
 				}
